@@ -3,10 +3,10 @@ package main
 func init() {
 	register(Harness{
 		Prop: "C05", Pkg: "policy", Func: "VerifC05Decide", ExtraPkgs: []string{"config"},
-		Quick:    grid(rng(0, 2), rng(1, 3), rng(1, 3)),
-		Thorough: grid(rng(0, 3), rng(1, 4), rng(1, 5)),
+		Quick:    append(grid(rng(0, 2), rng(1, 3), rng(1, 3)), []int64{1, 9, 9}, []int64{1, 6, 6}),
+		Thorough: append(grid(rng(0, 3), rng(1, 4), rng(1, 5)), []int64{1, 9, 9}, []int64{2, 9, 9}, []int64{1, 11, 11}, []int64{1, 6, 6}, []int64{1, 7, 7}),
 		Desc:     "ShouldAcceptDomain/ShouldStoreDomain and Recipient.ShouldAccept/ShouldStore equal the documented rule (case-insensitive) with lists loaded through the real config.Process",
-		Bounds:   "params (entries per list k, entry length, domain length); symbolic default switches, list contents (ASCII, no ',' / NUL), domain (assumed ValidateDomainPart)",
+		Bounds:   "params (entries per list k, entry length, domain length; the 6..11-byte instances reach address-literal domains such as [::1] and [IPv6:::]); symbolic default switches, list contents (ASCII, no ',' / NUL), domain (assumed ValidateDomainPart)",
 		Assumes:  []string{"envconfig.Process modelled as: fills the struct with arbitrary values (natively: real environment variables, comma-separated lists)"},
 	}, Harness{
 		Prop: "C05", Pkg: "policy", Func: "VerifC05Origin", ExtraPkgs: []string{"config"},
@@ -26,5 +26,13 @@ func init() {
 		Thorough: grid(rng(1, 8)),
 		Desc:     "SliceToLower / SliceContains",
 		Bounds:   "param (string length)",
+	})
+	register(Harness{
+		Prop: "C05", Pkg: "server/smtp", Func: "VerifC03Machine",
+		Quick:    [][]int64{{3, 5, 0, 0}},
+		Thorough: [][]int64{{3, 6, 0, 1}},
+		Unwind:   60,
+		Desc:     "recipient limit in the real SMTP session: RCPT beyond MaxRecipients is refused and a refused recipient is not part of the delivered envelope (ghost envelope from reply codes; see C03)",
+		Bounds:   "see C03",
 	})
 }
